@@ -639,8 +639,12 @@ sfd_tran_ep_close(void *arg)
 	NNI_LIST_FOREACH (&ep->negopipes, p) {
 		sfd_tran_pipe_close(p);
 	}
-	NNI_LIST_FOREACH (&ep->waitpipes, p) {
-		sfd_tran_pipe_close(p);
+	// Pipes that finished negotiating but were never handed to an
+	// accept hold the reference that nni_pipe_start would have released.
+	while ((p = nni_list_first(&ep->waitpipes)) != NULL) {
+		nni_list_remove(&ep->waitpipes, p);
+		nni_pipe_close(p->npipe);
+		nni_pipe_rele(p->npipe);
 	}
 	if (ep->useraio != NULL) {
 		nni_aio_finish_error(ep->useraio, NNG_ECLOSED);
